@@ -18,8 +18,8 @@ import vlib
 LIBS = ("mptcore", "mptplot")
 DRV_ENV = {"ASAN_OPTIONS": vlib.ASAN_ENV + ":symbolize=0"}
 CFG = {
-    "quick":    dict(mc="MC_ObjSet.cfg", gen="Gen_ObjSet.cfg", mcv="MC_ObjVararg.cfg", genv="Gen_ObjVararg.cfg", nhist=40, steps=14),
-    "thorough": dict(mc="MC_ObjSet_t.cfg", gen="Gen_ObjSet_t.cfg", mcv="MC_ObjVararg_t.cfg", genv="Gen_ObjVararg_t.cfg", nhist=300, steps=24),
+    "quick":    dict(mc="MC_ObjSet.cfg", gen="Gen_ObjSet.cfg", genx="Gen_ObjSet_x.cfg", mcv="MC_ObjVararg.cfg", genv="Gen_ObjVararg.cfg", nhist=40, steps=14),
+    "thorough": dict(mc="MC_ObjSet_t.cfg", gen="Gen_ObjSet_t.cfg", genx="Gen_ObjSet_xt.cfg", mcv="MC_ObjVararg_t.cfg", genv="Gen_ObjVararg_t.cfg", nhist=300, steps=24),
 }
 
 
@@ -34,6 +34,10 @@ def enabled():
 
 def build():
     return vlib.build_driver("objset", ["objset.c"], libs=LIBS)
+
+
+def build_cxx():
+    return vlib.build_driver("objset_cxx", ["objset_cxx.cpp"], libs=LIBS + ("mpt++",), cxx=True)
 
 
 # --------------------------------------------------------------------------
@@ -142,9 +146,9 @@ def kind_of(beh):
 def signature(mm, kind):
     """kind, door, discriminating argument class, what differed first"""
     st = mm["step"]
-    a, arg = st["a"], st.get("arg") or {}
+    a, arg = st["a"], st.get("arg0") or st.get("arg") or {}
     why = mm["why"]
-    what = why.split(":")[0] if why not in ("Crash", "Hang") else why.lower()
+    what = why.split(":")[0] if why not in ("Crash", "Hang", "Missing") else why.lower()
     parts = ["x21", kind, a]
     if a in ("vset", "vvset", "iset"):
         parts.append(name_of(arg).lower())
@@ -163,7 +167,8 @@ def signature(mm, kind):
         parts.append("mode=%s" % arg.get("mode"))
         parts.append("match=%s" % arg.get("match"))
     elif a == "walk":
-        parts.append("w=%s" % arg.get("w"))
+        w = arg.get("w") or []
+        parts.append("w=%d%s" % (len(w), "+reset" if "r" in w else ""))
     parts.append(what)
     return ":".join(parts)
 
@@ -204,50 +209,153 @@ def replay_part(ck, exe, behs, tag, per_sig, nt):
     return len(mms)
 
 
+def fix_beh(beh):
+    """(streamed replay) render the arguments the way script() does; the original stays beside it"""
+    for st in beh:
+        arg = st.get("arg") or {}
+        st["arg0"] = arg
+        out = {}
+        for k, v in arg.items():
+            if k == "unnamed":
+                continue
+            if k == "name" and arg.get("unnamed"):
+                v = "null"
+            out[k] = fmt_arg(k, v)
+        st["arg"] = out
+
+
+def unfix_beh(beh):
+    for st in beh:
+        if "arg0" in st:
+            st["arg"] = st.pop("arg0")
+    return beh
+
+
+def nt_recs(rs):
+    """(streamed replay) a door step changed a property, or a listing / naming answered"""
+    last = None
+    for r in rs:
+        o = r.get("obs") or {}
+        p = (o.get("p0"), o.get("p1"))
+        if r.get("a") not in ("init", "dset") and last is not None and p != last and p[0] is not None:
+            return True
+        if o.get("seen") or o.get("tname"):
+            return True
+        if p[0] is not None:
+            last = p
+    return False
+
+
+def replay_dump(ck, exe, dump, tag, per_sig, nts):
+    tot = vlib.replay_file(dump, exe, match=match, fix=fix_beh, nontrivial=nt_recs, chunk=6000, procs=max(2, vlib.NCPU // 2))
+    bl, mms = [], []
+    for d in tot["details"]:
+        bl.append(unfix_beh(d["behaviour"]))
+        mms.append({"b": len(bl) - 1, "i": d["step"], "step": d["st"], "rec": d["record"], "why": d["why"]})
+    report(ck, bl, mms, "X21 A(replay) " + tag, per_sig)
+    nts.append(len(tot["nontrivial"]))
+    return tot["n"], tot["mismatches"]
+
+
 def run_part(ck, tier):
     t0 = time.time()
     cfg = CFG[tier]
     exe = build()
-    per_sig, nt = {}, set()
-    dump = os.path.join(vlib.ensure(os.path.join(vlib.WORK, "C20")), "x21-gen-%d.out" % os.getpid())
+    per_sig, nt, nts = {}, set(), []
+    wdir = vlib.ensure(os.path.join(vlib.WORK, "C20"))
+    dump = os.path.join(wdir, "x21-gen-%d.out" % os.getpid())
+    dumpv = os.path.join(wdir, "x21-genv-%d.out" % os.getpid())
+    hist = gen_histories(ck, cfg["nhist"], cfg["steps"])
+    histv = gen_histories_v(ck, cfg["nhist"], cfg["steps"])
 
-    def job_mc():
-        if os.environ.get("X21_DEV_SKIP_MC"):
+    def job_mc(mod, c):
+        if os.environ.get("X21_DEV_SKIP_MC"):        # development aid only (code mutations do not touch the model)
             return None
-        return vlib.tlc("MC_ObjSet", cfg["mc"], workers=max(2, vlib.NCPU // 2), tag="MC_ObjSet")
+        return c, vlib.tlc(mod, c, workers=max(2, vlib.NCPU // 4), tag=mod)
 
-    def job_gen():
-        g = vlib.tlc_to_file("Gen_ObjSet", cfg["gen"], dump, workers=4, timeout=1500)
+    def job_gen(mod, c, path):
+        g = vlib.tlc_to_file(mod, c, path, workers=4 if tier == "quick" else 6, timeout=1500)
         if g.error:
-            raise vlib.MachineryError("X21 behaviour export failed: %s" % g.error)
-        with open(dump, errors="replace") as fh:
+            raise vlib.MachineryError("X21 behaviour export failed (%s): %s" % (mod, g.error))
+        if tier != "quick":
+            return mod, g, None, path, 0
+        with open(path, errors="replace") as fh:
             behs = vlib.parse_behaviours(fh.read())
-        os.unlink(dump)
-        return g, behs
+        os.unlink(path)
+        recs, _ = vlib.run_driver(exe, script(behs), env=DRV_ENV, timeout=1200)
+        return mod, g, behs, path, recs
 
-    with concurrent.futures.ThreadPoolExecutor(max_workers=2) as ex:
-        fm, fg = ex.submit(job_mc), ex.submit(job_gen)
-        gen, behs = fg.result()
-        nmm = replay_part(ck, exe, behs, "doors", per_sig, nt)
-        mc = fm.result()
-    if mc is not None:
-        ck.add_tlc(mc, "x21 exhaustive " + cfg["mc"])
-    ck.cov["transitions"] += gen.generated
-    ck.cov["evaluations"] += len(behs)
-    ck.cov["distinct_nontrivial"] += len(nt)
-    ck.notes["x21_replayed_behaviours"] = len(behs)
+    with concurrent.futures.ThreadPoolExecutor(max_workers=4) as ex:
+        fms = [ex.submit(job_mc, "MC_ObjSet", cfg["mc"]), ex.submit(job_mc, "MC_ObjVararg", cfg["mcv"])]
+        fgs = [ex.submit(job_gen, "Gen_ObjSet", cfg["gen"], dump), ex.submit(job_gen, "Gen_ObjVararg", cfg["genv"], dumpv)]
+        # binding B: recorded runs judged by TLC (beside the exports)
+        recs, _ = vlib.run_driver(exe, script(hist), env=DRV_ENV, timeout=900)
+        recsv, _ = vlib.run_driver(exe, script(histv), env=DRV_ENV, timeout=900)
+        rej = trace_part(ck, "Trace_ObjSet", hist, recs, "Trace_ObjSet", per_sig)
+        rej += trace_part(ck, "Trace_ObjVararg", histv, recsv, "Trace_ObjVararg", per_sig)
+        gens = [f.result() for f in fgs]
+        nbeh = nmm = 0
+        sample = None
+        for mod, g, behs, path, brecs in gens:
+            ck.cov["transitions"] += g.generated
+            if behs is not None:
+                mms = vlib.compare(behs, brecs, match)
+                report(ck, behs, mms, "X21 A(replay) " + mod, per_sig)
+                by = vlib.group_records(brecs)
+                for b, beh in enumerate(behs):
+                    if nontrivial(beh, by.get(b, [])):
+                        nt.add(json.dumps([(s["a"], s.get("arg")) for s in beh], sort_keys=True))
+                nmm += len(mms)
+                nbeh += len(behs)
+                sample = sample or (behs[len(behs) // 2] if behs else None)
+        mc = [f.result() for f in fms if f.result() is not None]
+    if tier != "quick":          # streamed, parallel replay of the big dumps (process pool: from the main thread)
+        for mod, g, behs, path, brecs in gens:
+            n, m = replay_dump(ck, exe, path, mod, per_sig, nts)
+            os.unlink(path)
+            nbeh += n
+            nmm += m
+    for c, res in mc:
+        ck.add_tlc(res, "x21 exhaustive " + c)
+    ck.cov["evaluations"] += nbeh
+    ck.cov["distinct_nontrivial"] += len(nt) + sum(nts)
+    ck.notes["x21_replayed_behaviours"] = nbeh
     ck.notes["x21_replay_mismatches"] = nmm
+    ck.notes["x21_seeded_histories"] = len(hist) + len(histv)
+    ck.notes["x21_seeded_histories_rejected"] = rej
     ck.notes["x21_mismatch_signatures"] = per_sig
+    ck.notes["x21_rule"] = ("X21 A: one behaviour per transition of the TLC state graphs of ObjSet (layout objects: a preparation of the two "
+                            "objects through the direct route, then one call of a front door with an entry list of the alphabet) and "
+                            "ObjVararg (reference object / local output object: variadic doors, iterator walks, listings, value copies) "
+                            "under the view (kind, step, which properties differ from their defaults), replayed through drv/objset.c with "
+                            "ALL properties of both objects compared after every step; where the statement permits more than the design "
+                            "predicts the permitted values computed by TLC are tested for membership and the comparison of that behaviour "
+                            "ends.  X21 B: seeded call sequences (up to 40 entries, names beyond 256 bytes, texts up to 70000 bytes, 12 "
+                            "variadic arguments) recorded from the real code and judged by TLC (Trace_ObjSet, Trace_ObjVararg).  "
+                            "Non-trivial = a door call changed a property, or a listing / naming answered.")
+    if sample:
+        ck.cov["samples"] = list(ck.cov.get("samples") or []) + [{"x21": [(s["a"], s.get("arg")) for s in sample[1:]]}]
     ck.notes["x21_wall_s"] = round(time.time() - t0, 1)
+    ck.assumptions.append("X21: drv/objset.c renders the entry lists and projects the state without judgement; the reference object of the "
+                          "harness accepts iterator sources for every property and does not change on a refusal (docs/X21_objset.md)")
 
 
 def replay(det, path="-"):
+    """replay of a violation file written by this part (called from checks/c20.py:replay)"""
     beh = det.get("behaviour")
     if not beh:
         print(json.dumps(det, indent=1)[:4000])
         return 2
+    beh = unfix_beh(beh)
     exe = build()
     recs, _ = vlib.run_driver(exe, script([beh]), env=DRV_ENV)
+    if det.get("trace"):
+        events = vlib.merge_trace([beh], recs)
+        ok, matched, _ = vlib.validate_trace(det["trace"], events, tag=det["trace"] + "_replay")
+        if not ok:
+            print("VIOLATION property=C20 replay=%s  (x21 trace rejected at event %d: %s)" %
+                  (path, matched, json.dumps(events[matched])[:400] if matched < len(events) else "-"))
+        return 0 if ok else 1
     mms = vlib.compare([beh], recs, match)
     for mm in mms:
         print("VIOLATION property=C20 replay=%s  (%s: %s)" % (path, signature(mm, kind_of(beh)), mm["why"]))
@@ -525,5 +633,49 @@ def gen_histories_v(ck, n, steps):
                 if v["f"] == "s":
                     v = dict(blank, f="i", n=[0, 14])
                 beh.append({"a": "vcopy", "arg": {"max": rng.choice([0, 1, 2, 3, 4, 7, 8, 16, 32]), "nosrc": rng.choice([0, 0, 1]), "ents": [dict({"name": [], "x": "U"}, **v)]}})
+        hist.append(beh)
+    return hist
+
+
+def gen_histories_x(ck, n, steps):
+    """C++ object interface: attribute assignment, iteration, node lists (inputs only)"""
+    c20 = _c20()
+    rng = ck.rng
+    kinds = ["axis", "line", "text", "graph", "world"]
+    hist = []
+
+    def cxx_ent(kind, forms="any"):
+        e = seed_ent(rng, kind, forms)
+        if e["f"] in ("s", "sr", "l"):
+            e = dict(e, f="txt" if e["f"] != "sr" else "rle")
+        return e
+    for h in range(n):
+        kind = kinds[h % 5]
+        beh = [{"a": "init", "arg": {"kind": kind}}]
+        for _ in range(steps):
+            r = rng.random()
+            o = 0 if rng.random() < 0.7 else 1
+            if r < 0.25:
+                beh.append({"a": "dset", "arg": {"o": o, "ents": [cxx_ent(kind) for _ in range(rng.choice([1, 1, 2, 3]))]}})
+            elif r < 0.6:
+                e = cxx_ent(kind)
+                while e["f"] == "none":
+                    e = cxx_ent(kind)
+                if rng.random() < 0.5:
+                    e["name"] = c20.codes(rng.choice(c20.NAMES[kind]))       # prefixes, case variants, foreign names
+                beh.append({"a": "aset", "arg": {"o": o, "ents": [e]}})
+            elif r < 0.75:
+                beh.append({"a": "alist", "arg": {"o": o, "const": rng.choice([0, 1])}})
+            else:
+                k = rng.choice([0, 1, 1, 2, 3, 5, 20])
+                ents = []
+                for _ in range(k):
+                    e = cxx_ent(kind, "text")
+                    if e["f"] in ("txt", "rle") and not e["c"]:
+                        continue
+                    if rng.random() < 0.06:
+                        e = dict(e, name=[], x="U")
+                    ents.append(e)
+                beh.append({"a": "nset", "arg": {"o": o, "proc": rng.choice([0, 1]), "ents": ents}})
         hist.append(beh)
     return hist
